@@ -2,7 +2,12 @@ use crate::engine::Runner;
 
 pub mod c15;
 pub mod c16;
+pub mod c17;
+pub mod c18;
+pub mod c20;
 pub mod c21;
+pub mod c22;
+pub mod c24;
 pub mod c29;
 
 pub type CheckFn = fn(&mut Runner);
@@ -11,7 +16,12 @@ pub fn registry() -> Vec<(&'static str, CheckFn)> {
     vec![
         ("C15", c15::run as CheckFn),
         ("C16", c16::run as CheckFn),
+        ("C17", c17::run as CheckFn),
+        ("C18", c18::run as CheckFn),
+        ("C20", c20::run as CheckFn),
         ("C21", c21::run as CheckFn),
+        ("C22", c22::run as CheckFn),
+        ("C24", c24::run as CheckFn),
         ("C29", c29::run as CheckFn),
     ]
 }
